@@ -115,6 +115,8 @@ def make_problem(spec):
         cons = lambda X: np.atleast_2d(X)[:, 0] - 1.0 - (0.0 if D == 1 else 0.5 * np.atleast_2d(X)[:, -1])  # noqa: E731
     elif cname == "band":
         cons = lambda X: np.abs(np.atleast_2d(X)[:, 0] - (0.2 if box != "log" else 1.2)) - 0.6  # noqa: E731
+    elif cname == "lattice":   # feasible only on a coarse lattice: ES populations collapse to few or zero survivors
+        cons = lambda X: np.any(np.abs(np.atleast_2d(X) / 0.25 - np.round(np.atleast_2d(X) / 0.25)) > 1e-9, axis=1).astype(float)  # noqa: E731
     xk = spec.get("x0", "given")
     if xk == "absent":
         x0 = None
@@ -127,6 +129,8 @@ def make_problem(spec):
         x0 = np.asarray(plb) + (np.asarray(pub) - np.asarray(plb)) * (0.25 + 0.5 * rs.rand(D))
         if cname in ("half", "band"):
             x0[0] = 0.25 if box != "log" else 1.25
+        if cname == "lattice":
+            x0 = np.asarray([0.5] * D)
     options = dict(display="off", random_seed=spec.get("seed", 0))
     if noise == "declared":
         options["uncertainty_handling"] = True
